@@ -74,7 +74,7 @@ def run(tier):
     # ---- 2. correspondence (a sample of every family + every case the oracle flagged)
     corr_n = 0
     if model_ok:
-        per_tag = 110 if tier == 'quick' else 900
+        per_tag = 80 if tier == 'quick' else 600
         by_tag = {}
         for i, c in enumerate(cases):
             by_tag.setdefault(c['tag'], []).append(i)
@@ -94,6 +94,7 @@ def run(tier):
                     flagged.append(i)
                     break
         pick = sorted(set(pick + flagged))
+        r.shuffle(pick)            # spread the long inputs over the shards
         pick = [i for i in pick if result_representable(impl[i])]
         terms = [corr_term(payloads[i], impl[i]) for i in pick]
         bad, errors = core.coq_bools('c06', IMPORTS, terms, shard=60, timeout=1500)
